@@ -105,9 +105,19 @@ def gen_program(rng: random.Random) -> dict:
         # a character table is loaded: it is what .text uses; .ascii keeps emitting ASCII
         tables["chars.tbl"] = [[f"{0x90 + i:02x}", ch] for i, ch in enumerate("abcABC 0123")] + [["a1b2", "ab"], ["ff", "!"]]
         prog.append({"k": "table", "f": "chars.tbl"})
+    item_macro = bool(fwd) and rng.random() < 0.4
+    if item_macro:
+        # data directives inside a macro: the first argument is a label of the call site whose name is also the macro's second parameter
+        prog.append({"k": "macro", "n": "mitem", "ps": ["ptext", fwd[0]], "b": [{"k": "data", "d": "dw", "es": [[sym("ptext")]]}, {"k": "data", "d": "dl", "es": [[sym("ptext")], [sym(fwd[0])]]},
+                                                                               {"k": "data", "d": "db", "es": [[sym(fwd[0])]]}]})
     try:
         for _ in range(rng.randint(2, 8)):
             c = rng.random()
+            if item_macro and rng.random() < 0.3:
+                prog.append({"k": "call", "n": "mitem", "as": [[sym(fwd[0])], E(2)]})
+                pending.append((len(expected), 2, [sym(fwd[0])]))
+                pending.append((len(expected) + 2, 3, [sym(fwd[0])]))
+                expected += b"\0" * 5 + b"\x02\x00\x00" + b"\x02"
             if len(expected) and not ips_records and rng.random() < 0.06:
                 # a patch is included between two directives: the data around it keeps its place
                 from vf.ref import ips as ipsref
@@ -149,6 +159,10 @@ def gen_program(rng: random.Random) -> dict:
                 consts[base + "__size"] = ln
                 prog.append({"k": "incbin", "f": fname})
                 expected += data
+                if rng.random() < 0.3 and "'" not in fname:
+                    # the file's name as text (a directory table): a quoted string of .ascii is data
+                    prog.append({"k": "ascii", "t": fname})
+                    expected += fname.encode("ascii")
             if rng.random() < 0.7:
                 nm = new_label()
                 # read the label and the position-derived symbols back
